@@ -178,7 +178,8 @@ def intersectCL (c : Circle K) (l : Line K) : CL K :=
 def towards (a b : Circle K) (d : K) : Point K :=
   padd G a.c (pmul G (pdiv G (psub G b.c a.c) d) a.r)
 
-/-- `intersect_cc` once `a` is the circle with the larger radius. -/
+/-- `intersect_cc` once `a` is the circle with the larger radius (crossing branch as of fix 883c692:
+    both points are built directly from `h = (d² + a.r² - b.r²) / (2 d)`, no detour through `intersect_cl`). -/
 def intersectCCOrdered (a b : Circle K) : CC K :=
   let d := dist G a.c b.c
   if G.lt d G.eps && G.lt a.r (G.add b.r G.eps) then .same
@@ -226,6 +227,11 @@ def CC.kind {K : Type} : CC K → String
   | .touchInside _ => "TouchInside"
   | .touchOutside _ => "TouchOutside"
   | .intersect _ _ => "Intersect"
+
+/-- kind of an `intersect_ll` result -/
+def llKind {K : Type} : Option (Point K) → String
+  | none => "None"
+  | some _ => "Some"
 
 def Position.toString : Position → String
   | .inside => "Inside"
